@@ -96,7 +96,8 @@ func (r *REPL) Run(line string) error {
 	}
 	// need +"\n" because "single" expects \n terminated input
 	toCompile := r.previous + string(line)
-	if toCompile == "" {
+	if strings.TrimSpace(toCompile) == "" {
+		// nothing but white space at the primary prompt is not the start of a statement
 		return nil
 	}
 	code, err := py.Compile(toCompile+"\n", r.prog, py.SingleMode, 0, true)
